@@ -167,6 +167,18 @@ func slotConservation(run *ev.Run) {
 			res := "ok"
 			if err != nil {
 				res = "error"
+				// successes in between keep the client from writing the host off as failing, which would keep
+				// later operations from being attempted at all (and so from showing what the failed ones left behind)
+				set("")
+				for j := 0; j < 7; j++ {
+					c3, cancel3 := context.WithTimeout(context.Background(), 5*time.Second)
+					_, herr := rc.ManifestHead(c3, ref)
+					stuck := herr != nil && c3.Err() != nil
+					cancel3()
+					if stuck {
+						break // the probe below decides
+					}
+				}
 			}
 			hist = append(hist, op+" -> "+res)
 			run.Count("slot_ops_"+res, 1)
